@@ -170,6 +170,10 @@ class WebSession(object):
                 request = self._original_request.copy()
                 request.url = url
 
+                if request.body:
+                    # The payload is sent again from its beginning.
+                    request.body.seek(0)
+
                 # These fields belong to the URL of the copied request and
                 # are set again for the new URL before it is sent.
                 for name in ('Host', 'Authorization', 'Cookie'):
